@@ -4,6 +4,8 @@ package mqtt
 // k packets built by the reference encoder from symbolic fields; one timeline
 // records reads (packet boundaries), handler calls and written packets.
 
+import "context"
+
 type c04Event struct {
 	kind byte // 'R' packet k starts being read, 'H' handler call, 'W' written packet
 	k    int
@@ -54,7 +56,9 @@ func VerifH_C04_Inbound() {
 	conn := &c04Conn{log: &log}
 	cli := &BaseClient{Transport: conn}
 	cli.init()
-	withHandler := verifChoice("handler", 2) == 0
+	hkind := verifChoice("handler", 3) // 0 a recording handler, 1 none, 2 a handler that also uses its client (forwards the message)
+	withHandler := hkind != 1
+	nForward := 0
 	if withHandler {
 		cli.Handle(HandlerFunc(func(m *Message) {
 			tag := byte(0)
@@ -62,8 +66,17 @@ func VerifH_C04_Inbound() {
 				tag = m.Payload[0]
 			}
 			log = append(log, c04Event{kind: 'H', id: m.ID, tag: tag, typ: byte(m.QoS)})
+			if hkind == 2 {
+				nForward++
+				_ = cli.Publish(context.Background(), &Message{Topic: "fwd", QoS: QoS0, Payload: []byte{tag}})
+			}
 		}))
 	}
+	served := false
+	verifOnQuiescence(func() {
+		// handing a message to a handler that calls back into the client does not wedge the reader
+		verifAssert(served, "C04.serve_not_blocked_by_handler")
+	})
 	k := verifChoice("npackets", verifParam("maxpackets", 3)) + 1
 	kinds := make([]int, k)
 	ids := make([]uint16, k)
@@ -82,6 +95,7 @@ func VerifH_C04_Inbound() {
 		}
 	}
 	_ = cli.serve()
+	served = true
 	verifReach("served")
 
 	// split the timeline per input packet
@@ -92,10 +106,16 @@ func VerifH_C04_Inbound() {
 			cur = e.k
 			continue
 		}
+		if e.kind == 'W' && e.typ == 3 {
+			// the handler's own forwarded PUBLISH: not part of the inbound flow
+			nForward--
+			continue
+		}
 		if cur >= 0 {
 			seg[cur] = append(seg[cur], e)
 		}
 	}
+	verifAssert(nForward == 0, "C04.handler_forwarding_completes")
 	// reference receiver: pending QoS 2 ids
 	var pendID []uint16
 	var pendOn []bool
